@@ -231,6 +231,10 @@ type replayCase struct {
 	CallerFlag int `json:"caller_flag,omitempty"`
 	// op = refill: a history of builder calls / assignments / reads on the object of Items[0]
 	Refill []refillOp `json:"refill,omitempty"`
+	// op = api / ctor: an object made by Ctor(CtorArg), the fields of Items[0].Rec assigned, then the accessor calls
+	Ctor    string    `json:"ctor,omitempty"`
+	CtorArg int64     `json:"ctor_arg,omitempty"`
+	Calls   []apiCall `json:"calls,omitempty"`
 }
 type replayItem struct {
 	Type string `json:"type"`
@@ -696,7 +700,7 @@ func main() {
 	c := &ctx{env: env, rep: rep, sampled: map[string]int{}}
 	rep.Rule = "objects of every step type (9 registered, 2 unregistered), 3 service types, TxRecord and 3 profile packs with reflection-filled fields " +
 		"(edges of every width class, empty/nil/long strings, blobs and arrays, attribute maps; every []byte / text field of every type additionally with a pool of structured-looking content: IPv4, IPv4-mapped / IPv4-compatible / other IPv6 addresses, lengths 0,1,3,4,5,8,15,16,17,32 all-zero / all-ones / counting, valid and invalid UTF-8, numeric-looking and keyword text, NUL / whitespace); step streams of 1..200 (thorough 2000) steps; " +
-		"all 2^5 combinations of TxRecord's optional sections (custom fields with nil values included); TxRecords as older agents wrote them (version bytes 10..255 and < 10, multi-trace presence bytes 1..255, caller flags 1,3,4,5,6 and unknown ones) synthesised by the harness; raw streams behind the unregistered type codes 22 and 18; streams of 2..5 service records of mixed types read in turn from one input; re-fill histories (SetProfile / SetStack / SetCtr / SetTrue / field assignments / Read called repeatedly on one object; the last content must come back); decoding a second record into an object used before (decoded into, or populated through its fields and setters); the fields left out of the comparison (AbstractStep.Drop/Opt, AbstractService ids, pack header) are randomised in every generated object; histories of k in {2,3,5} live encodings (step profiles, packs via SetProfile, TxRecord, services) produced one after another with the originals changed in between, decoded in a different order, inputs overwritten afterwards (thorough: also produced from several goroutines); a case is its canonical field text — two cases are distinct when any field differs; all generated cases are non-trivial"
+		"all 2^5 combinations of TxRecord's optional sections (custom fields with nil values included); TxRecords as older agents wrote them (version bytes 10..255 and < 10, multi-trace presence bytes 1..255, caller flags 1,3,4,5,6 and unknown ones) synthesised by the harness; raw streams behind the unregistered type codes 22 and 18; streams of 2..5 service records of mixed types read in turn from one input; re-fill histories (SetProfile / SetStack / SetCtr / SetTrue / field assignments / Read called repeatedly on one object; the last content must come back); decoding a second record into an object used before (decoded into, or populated through its fields and setters); the fields left out of the comparison (AbstractStep.Drop/Opt, AbstractService ids, pack header) are randomised in every generated object; histories of 0..8 accessor calls of the Step interface (Set/Get Parent, Index, StartTime, Drop; SetTrue/IsTrue with flags beyond one byte; GetElapsed) on objects of all 11 step types made by each of their constructors; every constructor alone; TxRecord.ToBytes / ToObject into new and used records with bytes following; MessageStepX.WriteVer0 / ReadVer0 / CtrToJson called directly; ProfileStepSplitPack.ToString; mixed streams of 2..8 steps, service records, TxRecords, MessageStepX and SqlStep_3 on one output read back from one input; histories of k in {2,3,5} live encodings (step profiles, packs via SetProfile, TxRecord, services) produced one after another with the originals changed in between, decoded in a different order, inputs overwritten afterwards (thorough: also produced from several goroutines); a case is its canonical field text — two cases are distinct when any field differs; all generated cases are non-trivial"
 
 	if env.Replay != "" {
 		runReplay(c, env.Replay)
